@@ -99,6 +99,13 @@ CHECKS["C05"] = dict(
          "parameter and converts through the declared converter (same typestate machinery as C04). Together with C03 this ties each value to the segment at its template position.",
     note=TRUST + S3NOTE, technique="static analysis: AST decompilation to a path pattern + sibling cross-check + typestate/def-use on the conversion", design="§4 C05")
 
+CHECKS["C02"] = dict(
+    text="Per operation of every instantiated program: the response interface is sealed (only unexported methods); the implementer set computed with go/types method sets, reduced through "
+         "write<Op> -> Write to (status, Content-Type, header keys/requiredness/formatters, body kind) rows, equals the documented response set from the independent oracle (incl. shared "
+         "component responses and aliases, default <=> caller-supplied code); every Write is recognised completely with header-before-status-before-body order. Covers all response "
+         "values of each type (the rows do not depend on values); body value conformance is C07.",
+    note=TRUST + S3NOTE, technique="static analysis: go/types implementer sets + AST decompilation of response writers + table comparison with spec oracle", design="§4 C02")
+
 NA_REASON = {}
 DEFAULT_NA = "not claimed yet: static checker for this property is still under construction (design in DESIGN.md §4)"
 
